@@ -292,6 +292,12 @@ class ValidatedReadBucketProxy(log.PrefixingLogMixin):
             bh = dict(enumerate(blockhashes))
 
             try:
+                # the root of the block hash tree is this share's leaf of the
+                # share hash tree, not whatever the share itself claims
+                share_hash = self.share_hash_tree.get_leaf(self.sharenum)
+                if not share_hash:
+                    raise hashtree.NotEnoughHashesError
+                self.block_hash_tree.set_hashes({0: share_hash})
                 self.block_hash_tree.set_hashes(bh)
             except IndexError as le:
                 raise BadOrMissingHash(le)
